@@ -253,8 +253,13 @@ def _events(args):
                 if targeted:
                     flags = [False, False, flags[2]]
                 op, ar = "pos", [qs, qe] + flags
-                call = lambda: cur.query_by_position(qs, qe, coding_only=flags[0], completely_within=flags[1],  # noqa
-                                                     expand_location_to_children=flags[2])
+                # (half of the calls leave out every flag that has its DOCUMENTED default: coding_only=False,
+                # completely_within=True, expand_location_to_children=False)
+                kw = dict(coding_only=flags[0], completely_within=flags[1], expand_location_to_children=flags[2])
+                if rnd.random() < 0.5:
+                    kw = {k_: v_ for k_, v_ in kw.items()
+                          if v_ != dict(coding_only=False, completely_within=True, expand_location_to_children=False)[k_]}
+                call = lambda: cur.query_by_position(qs, qe, **kw)  # noqa
             elif r < 0.7:
                 pick = [m for m in allm if rnd.random() < 0.5]
                 if overhang:
